@@ -15,6 +15,9 @@ def sh(cmd, cwd=None):
     return p.returncode, p.stdout + p.stderr
 
 
+os.environ.setdefault("VERIF_EVIDENCE_DIR", "/tmp/verif_scratch_evidence")     # never overwrite the committed evidence
+
+
 def main():
     names = sys.argv[1:] or sorted(d for d in os.listdir(os.path.join(VERIF, "benign")) if os.path.isdir(os.path.join(VERIF, "benign", d)))
     rows = []
